@@ -31,9 +31,15 @@ theorem count_filter_range (p : Nat → Bool) (n j : Nat) :
 theorem waits_ok (c0 : Cfg) (t : Term) (h : AllStart c0) :
     (run c0 t).filterMap waitIdx =
       match t with
-      | .join | .capture => (c0.n - 1) :: (List.range c0.n).filter (fun j => !(effective c0 t).det j && !decide (j = c0.n - 1))
+      | .join => (c0.n - 1) :: (List.range c0.n).filter (fun j => !(effective c0 t).det j && !decide (j = c0.n - 1))
+      | .capture =>
+        -- a failed exchange returns before the explicit wait: the Popens' own drops do the waiting
+        if c0.ioFails then (List.range c0.n).filter (fun j => !(effective c0 t).det j)
+        else (c0.n - 1) :: (List.range c0.n).filter (fun j => !(effective c0 t).det j && !decide (j = c0.n - 1))
       | _ => (List.range c0.n).filter (fun j => !(effective c0 t).det j) := by
   have hn := effective_n c0 t
+  have hio : (effective c0 t).ioFails = c0.ioFails := by
+    cases t <;> simp only [effective] <;> (repeat' split) <;> rfl
   have w_closes : ∀ es : List End, (es.map Act.close).filterMap waitIdx = [] :=
     fun es => filterMap_closes waitIdx (by simp [waitIdx]) es
   have s9 : ∀ a b c, List.filterMap waitIdx [Act.mk a b c] = [] := fun _ _ _ => rfl
@@ -46,8 +52,9 @@ theorem waits_ok (c0 : Cfg) (t : Term) (h : AllStart c0) :
   unfold run
   rw [runEff_ok _ t (effective_allStart c0 t h)]
   simp only [List.filterMap_append, waits_stages]
-  cases t <;> simp only [tail, List.filterMap_append, waits_dropVec, w_closes, s11, s12, s13, s14, s15, hn,
-    List.nil_append, List.append_nil] <;>
+  cases t <;> (try (cases hc : c0.ioFails)) <;>
+    simp only [tail, hio, *, Bool.false_eq_true, if_true, if_false, List.filterMap_append, waits_dropVec, w_closes, s11, s12,
+      s13, s14, s15, hn, List.nil_append, List.append_nil] <;>
     cases capPipe (effective c0 _) _ <;> simp [s9, s10, noneWaited]
 
 /-- **C12 (no zombies).**  When all commands start, then by the time the terminator has returned and
@@ -57,7 +64,8 @@ theorem waits_ok (c0 : Cfg) (t : Term) (h : AllStart c0) :
 theorem c12_every_child_reaped_once (c0 : Cfg) (t : Term) (h : AllStart c0) (j : Nat) (hj : j < c0.n)
     (hd : (effective c0 t).det j = false) : ((run c0 t).filterMap waitIdx).count j = 1 := by
   rw [waits_ok c0 t h]
-  cases t <;> simp only [List.count_cons, count_filter_range] <;>
+  cases t <;> (try (cases hc : c0.ioFails)) <;>
+    simp only [Bool.false_eq_true, if_true, if_false, List.count_cons, count_filter_range] <;>
     (try by_cases hl : j = c0.n - 1) <;> simp_all <;> omega
 
 /-- **C12 (dropping a detached Popen never reaps).**  A detached command is never waited for by
